@@ -54,6 +54,7 @@ def check(run):
     run.exhaustive = True
     traces_delegation.fixture_traces(run, owns)
     traces_delegation.random_traces(run, 300 if quick else 6000, owns)
+    traces_delegation.aliased_traces(run, 200 if quick else 3000, owns)
 
 
 def replay(payload):
